@@ -44,7 +44,7 @@ def check_priority(ctx, R="C13.priority"):
         return None, None
 
     # the 4th and 5th argument of the emitted runTryInterrupt(behavior, agent, body, conditions, handlers) call
-    emitted = [c for c in walk_local(vis) if isinstance(c, ast.Call) and dotted(c.func) == "ast.Call" and c.args and "'runTryInterrupt'" in unparse(c.args[0])]
+    emitted = [c for c in walk_local(vis) if isinstance(c, ast.Call) and dotted(c.func) == "ast.Call" and c.args and "'runTryInterrupt'" in lib.role_text(vis, c.args[0])]
     if len(emitted) != 1 or len(emitted[0].args) < 2:
         raise AnalysisError("shape not recognised: the emitted runTryInterrupt call of visit_TryInterrupt")
     alist = emitted[0].args[1]
@@ -174,9 +174,15 @@ def check_resume(ctx, R="C13.resume"):
         built = [c for c in ast.walk(f) if isinstance(c, ast.Call) and dotted(c.func) == "ast.FunctionDef" and len(c.args) >= 3 and isinstance(c.args[2], ast.Name)]
         for b in built:
             bodyv = b.args[2].id
-            stmts = [unparse(x) for x in f.body]
-            ap = f"{bodyv}.append(ast.Return(finishedFlag))"
-            if ap in stmts and not any(f"{bodyv}.append(" in t_ or f"{bodyv}.insert(len" in t_ for t_ in stmts[stmts.index(ap) + 1 :]):
+            # the last statement that adds to the block's body appends `ast.Return(finishedFlag)` (locals resolved)
+            adds = [
+                c
+                for x in f.body
+                for c in ast.walk(x)
+                if isinstance(c, ast.Call) and isinstance(c.func, ast.Attribute) and unparse(c.func.value) == bodyv and c.func.attr in ("append", "extend", "insert") and not (c.func.attr == "insert" and c.args and lib.const(c.args[0]) == 0)
+            ]
+            adds.sort(key=lambda c: (c.lineno, c.col_offset))
+            if adds and adds[-1].func.attr == "append" and adds[-1].args and lib.role_text(f, adds[-1].args[0]) == "ast.Return(finishedFlag)":
                 term = True
     if term:
         ctx.ok(R, vis, "every block ends by returning FINISHED")
